@@ -69,6 +69,14 @@ fn scan_history_hostile(r: &mut Rng) -> String {
     format!("(identifier) @id {{\n  scan (source-text @id) {{\n    \"{}\" {{\n      node h1\n      attr (h1) arm = \"first\", t = $0\n    }}\n    \"{}\" {{\n      node h2\n      attr (h2) arm = \"second\", t = $0\n    }}\n  }}\n}}\n", a1, a2)
 }
 
+/// an inherited variable with SEVERAL defining proper ancestors: the nearest one wins, on every run
+fn ancestor_hostile(r: &mut Rng) -> String {
+    let name = *r.pick(&["owner", "scope", "ctx"]);
+    format!("inherit .{n}\n(class_definition) @c {{\n  let @c.{n} = \"class\"\n}}\n(function_definition) @f {{\n  let @f.{n} = \"function\"\n}}\n(block) @b {{\n  let @b.{n} = (start-row @b)\n}}\n(pass_statement) @p {{\n  node n\n  attr (n) seen = @p.{n}\n}}\n(identifier) @i {{\n  node m\n  attr (m) seen = @i.{n}\n}}\n", n = name)
+}
+
+const NESTED_SRC: &str = "class K:\n    def m(self):\n        pass\n    def n(self):\n        if a:\n            pass\n";
+
 fn history_hostile(r: &mut Rng) -> String {
     let bad = *r.pick(&["(", "[z-a]", "a{2,1}", "(?P<n>", "\\"]);
     let subject = *r.pick(&["a-b-c", "abc", "x(y"]);
@@ -133,10 +141,11 @@ pub fn child(seed: u64, n: usize, only: Option<usize>) {
         let mut r = root.fork(pi as u64);
         let opts = opts_for(pi, &mut r);
         let program = gen_program(&mut r, &pool, &opts);
-        let text = if pi % 11 == 10 { history_hostile(&mut r) } else if pi % 11 == 9 { scan_history_hostile(&mut r) } else if pi % 5 == 4 { faulty_variant(&mut r, &program.text) } else if pi % 7 == 6 { hash_order_hostile(&mut r) } else { program.text.clone() };
+        let text = if pi % 11 == 10 { history_hostile(&mut r) } else if pi % 11 == 9 { scan_history_hostile(&mut r) } else if pi % 11 == 8 { ancestor_hostile(&mut r) } else if pi % 5 == 4 { faulty_variant(&mut r, &program.text) } else if pi % 7 == 6 { hash_order_hostile(&mut r) } else { program.text.clone() };
         let source = gen_source(&mut r, true, false);
         let globals = supply_globals(&mut r, &program);
-        println!("{}", transcript(&text, &source.src, &globals));
+        let src_text = if pi % 11 == 8 { NESTED_SRC.to_string() } else { source.src.clone() };
+        println!("{}", transcript(&text, &src_text, &globals));
     }
 }
 
@@ -196,7 +205,7 @@ pub fn run(rep: &mut Report, tier: &str, seed: u64) {
         let mut r = root.fork(pi as u64);
         let opts = opts_for(pi, &mut r);
         let program = gen_program(&mut r, &pool, &opts);
-        let text = if pi % 11 == 10 { history_hostile(&mut r) } else if pi % 11 == 9 { scan_history_hostile(&mut r) } else if pi % 5 == 4 { faulty_variant(&mut r, &program.text) } else if pi % 7 == 6 { hash_order_hostile(&mut r) } else { program.text.clone() };
+        let text = if pi % 11 == 10 { history_hostile(&mut r) } else if pi % 11 == 9 { scan_history_hostile(&mut r) } else if pi % 11 == 8 { ancestor_hostile(&mut r) } else if pi % 5 == 4 { faulty_variant(&mut r, &program.text) } else if pi % 7 == 6 { hash_order_hostile(&mut r) } else { program.text.clone() };
         let _ = gen_source(&mut r, true, false); // keep the PRNG stream aligned with `child`
         let globals = supply_globals(&mut r, &program);
         // (1) repeated loading
@@ -223,6 +232,8 @@ pub fn run(rep: &mut Report, tier: &str, seed: u64) {
             let good = *r.pick(&["-", "b", "[a-c]"]);
             let bad = *r.pick(&["(", "[z-a]", "a{2,1}"]);
             [good, bad, bad].iter().map(|p| { let src = format!("x = \"{}\"\n", p); let tree = crate::tree::parse_python(&src); Source { src, tree } }).collect()
+        } else if pi % 11 == 8 {
+            [NESTED_SRC, NESTED_SRC, "def f():\n    pass\n"].iter().map(|src| { let src = src.to_string(); let tree = crate::tree::parse_python(&src); Source { src, tree } }).collect()
         } else if pi % 11 == 9 {
             ["ab = ba\n", "a = b\n", "ba = a0\n"].iter().map(|src| { let src = src.to_string(); let tree = crate::tree::parse_python(&src); Source { src, tree } }).collect()
         } else {
